@@ -1,6 +1,7 @@
 (* conv: io n z *)
 (* C17 driver.  One case per line:
-     conv fe fw ft hook er  <events: n ev...>  post nh  (hook: 0 ok | 1 raises | 2 slow | 3 awaits;
+     conv fe fw ft hook er  <events: n ev...>  post nh stopat  (stopat 2: stop() once the process is dead; stopat 1: stop() is called while the hook is
+                                                       in flight, i.e. between the watcher's two runs; hook: 0 ok | 1 raises | 2 slow | 3 awaits;
                                                        nh: handler tasks 0..nh-1 get a run after the two tasks)
    events: 0 = Send | 1 i = UserCancel | 2 0 i 0 v = SrvWrite (Reply i (RResult v))
          | 2 0 i 1 c = SrvWrite (Reply i (RError c)) | 2 1 = SrvWrite BadFrame | 2 2 = SrvWrite Junk
@@ -72,8 +73,15 @@ let dispatch = function
     let c = next_cfg () in let evs = read_list next_event in let post = next_int () in
     let nh = next_int () in
     let rec hsteps k = if k >= nh then [] else HandlerStep (n_of_int k) :: hsteps (k + 1) in
-    let orders = [[ReaderRun; ServerExitTask; ServerExitTask] @ hsteps 0;
-                  [ServerExitTask; ReaderRun; ServerExitTask] @ hsteps 0] in
+    let stopat = next_int () in
+    let mid = if stopat = 1 then [Stop] else [] in
+    let orders =
+      if stopat = 2 then    (* stop() as soon as the process is dead: the reader may have run, the watcher not *)
+        [[ReaderRun; Stop; ServerExitTask; ServerExitTask] @ hsteps 0;
+         [Stop; ReaderRun; ServerExitTask; ServerExitTask] @ hsteps 0]
+      else
+        [[ReaderRun; ServerExitTask] @ mid @ [ServerExitTask] @ hsteps 0;
+         [ServerExitTask; ReaderRun] @ mid @ [ServerExitTask] @ hsteps 0] in
     let later = replicate post Send @ [Stop; ReaderRun; ServerExitTask; ServerExitTask] @ hsteps 0 in
     let exps = conv_expect (evs @ List.hd orders @ replicate post Send) in
     put_bool (wf_conv (evs @ List.hd orders)); put_list put_expect exps;
